@@ -9,7 +9,7 @@ from ..pipeline_prop import PipelineProp
 class C02(PipelineProp):
     pid = "C02"
     design_ref = "6/C02"
-    required_theorems = ['C02_error_length_spec', 'C02_trim_first_exact', 'C02_trim_last_exact', 'C02_trim_first_kept', 'C02_start_if_trimmed_agrees', 'C02_start_if_trimmed_agrees_rev', 'C02_legacy_refuted', 'C02_two_piece_cut', 'C02_two_piece_cut_instance', 'C02_margin_sharp_left', 'C02_core_kept', 'C02_deep_cut_exact', 'C02_core_and_cut_instance', 'C02_completion', 'C02_completion_needs_untagged_input', 'C02_completion_instance', 'C02_pretext_order', 'C02_pretext_order_pairs', 'C02_end_to_end', 'C02_end_to_end_order', 'C02_end_to_end_needs_stranded_input', 'C02_end_to_end_instance', 'C02_completion_painted', 'C02_painted_maps_complete', 'C02_painted_needs_stranded_contigs', 'C02_painted_needs_named_scaffolds', 'C02_painted_needs_no_haplotype_names', 'C02_end_to_end_painted', 'C02_end_to_end_painted_order', 'C02_end_to_end_painted_named', 'C02_painted_rank_needs_fresh_names', 'C02_completion_tagged', 'C02_tagged_needs_one_name_tag', 'C02_tagged_needs_one_hap_tag', 'C02_tagged_needs_primary_has_hap', 'C02_tagged_needs_unloc_is_painted', 'C02_completion_tagged_instance', 'C02_cores_land_any_tags']
+    required_theorems = ['C02_error_length_spec', 'C02_trim_first_exact', 'C02_trim_last_exact', 'C02_trim_first_kept', 'C02_start_if_trimmed_agrees', 'C02_start_if_trimmed_agrees_rev', 'C02_legacy_refuted', 'C02_two_piece_cut', 'C02_two_piece_cut_instance', 'C02_margin_sharp_left', 'C02_core_kept', 'C02_deep_cut_exact', 'C02_core_and_cut_instance', 'C02_completion', 'C02_completion_needs_untagged_input', 'C02_completion_instance', 'C02_pretext_order', 'C02_pretext_order_pairs', 'C02_end_to_end', 'C02_end_to_end_order', 'C02_end_to_end_needs_stranded_input', 'C02_end_to_end_instance', 'C02_completion_painted', 'C02_painted_maps_complete', 'C02_painted_needs_stranded_contigs', 'C02_painted_needs_named_scaffolds', 'C02_painted_needs_no_haplotype_names', 'C02_end_to_end_painted', 'C02_end_to_end_painted_order', 'C02_end_to_end_painted_named', 'C02_painted_rank_needs_fresh_names', 'C02_completion_tagged', 'C02_tagged_needs_one_name_tag', 'C02_tagged_needs_one_hap_tag', 'C02_tagged_needs_primary_has_hap', 'C02_tagged_needs_unloc_is_painted', 'C02_completion_tagged_instance', 'C02_cores_land_any_tags', 'C02_two_haplotype_maps_complete', 'C02_two_haplotype_maps_need_pairing', 'C02_two_haplotype_instance']
     n_quick = 400
 
     def rule(self):
